@@ -6,6 +6,7 @@ import AasVerif.Lemmas.Lit.Ts
 import AasVerif.Lemmas.Lit.Java
 import AasVerif.Lemmas.Lit.Wchar
 import AasVerif.Lemmas.Lit.Bytes
+import AasVerif.Lemmas.Lit.BytesB
 /-!
 # C19 — Emitted literals denote exactly the original values
 
@@ -345,6 +346,14 @@ example : dec_cppc (Text.ofString "L'\\x1f'") = some [31] := by decide
 the literal, read as adjacent bytes literals inside parentheses, is exactly the original bytes. -/
 theorem py_bytes_roundtrip (b : List Nat) (hb : ∀ x ∈ b, x < 256) :
     decbytes_py (bytes_py b).1 = some b := bytes_py_roundtrip b hb
+
+/-- C++ `bytes_literal` (`{0x.., …}`, one row per 8 bytes, or `std::vector<std::uint8_t>()`). -/
+theorem cpp_bytes_roundtrip (b : List Nat) (hb : ∀ x ∈ b, x < 256) :
+    decbytes_cpp (bytes_cpp b).1 = some b := bytes_cpp_roundtrip b hb
+
+/-- TypeScript `bytes_literal` (`new Uint8Array([…])`). -/
+theorem ts_bytes_roundtrip (b : List Nat) (hb : ∀ x ∈ b, x < 256) :
+    decbytes_ts (bytes_ts b).1 = some b := bytes_ts_roundtrip b hb
 
 example : (bytes_py [0, 1, 2, 3, 4, 5, 6, 7, 255]).1 =
     Text.ofString "b\"\\x00\\x01\\x02\\x03\\x04\\x05\\x06\\x07\"\nb\"\\xff\"" := by decide
